@@ -44,19 +44,19 @@ def histories(ctx):
     rng = ctx.rng
     quick = ctx.tier == "quick"
     hs = []
-    for i in range(8 if quick else 300):
+    for i in range(30 if quick else 300):
         song = c07.gen_song(rng, loops="none"); song.loops = None
         img = song.encode(running_status=rng.random() < 0.5)
         bare = sq.PREFIX + ["opendata " + img.hex(), "total", "tracks", "tickall 200000 " + GRAN]
         wrapped = sq.PREFIX + ["opendata " + gen_smf.rmi(img).hex(), "total", "tracks", "tickall 200000 " + GRAN]
         hs.append(("rmi", (bare, wrapped), None))
-    for i in range(10 if quick else 600):
+    for i in range(40 if quick else 600):
         evs = gen_mus.gen_mus_events(rng)
         chans = rng.choice([1, 3, 9, 15])
         img = gen_mus.encode_mus(evs, channels=chans, pad=rng.choice([0, 2, 16]))
         h = sq.PREFIX + ["opendata " + img.hex(), "tickall 400000 " + GRAN]
         hs.append(("mus", (h,), (evs, chans)))
-    for i in range(10 if quick else 600):
+    for i in range(40 if quick else 600):
         nsongs = rng.choice([1, 2, 3])
         songs = [gen_mus.gen_xmi_song(rng, with_tempo=True) for _ in range(nsongs)]
         img = gen_mus.encode_xmi(songs, timb=rng.random() < 0.3)
